@@ -126,6 +126,25 @@ theorem expand_lookaround_symbol_spec (v : Variant) (pfx : Str) (isUnit : Bool) 
   · exact ⟨rfl, rfl, .lookahead, rfl, rfl⟩
   · exact ⟨rfl, rfl, .lookbehind, rfl, rfl⟩
 
+/-- **The rule does not compose across inlining steps** (recorded finding of C06). Alternative
+    `"c" @L @R "d"` on tokens `c` = (0,1), `d` = (4,5). `@L` is inlined first, so its function
+    (`inner`) has the arguments `c`, `@R`, `d`; `@R` is inlined afterwards, its function (`outer`)
+    has the arguments `c`, `d`, computes the temporary `(1, _, 4)` for `@R` and hands it to `inner`
+    as an ordinary argument. Inside `inner`, `lookaround_spec` applies to *its* arguments: the
+    symbol that follows `@L` is `@R` with span `(1, 4)`, so `@L` = 1 — while the start of the
+    following token is 4 (`declL` over the real neighbours). -/
+theorem lookaround_composition_counterexample :
+    let c : Nat × Nat := (0, 1)
+    let d : Nat × Nat := (4, 5)
+    let outer : List (InlinedSymbol Nat Nat) := [.original (.term 0), .inlined 11 [], .original (.term 1)]
+    let inner : List (InlinedSymbol Nat Nat) :=
+      [.original (.term 0), .inlined 10 [], .original (.nt 7), .original (.term 1)]
+    tempSpans { args := [c, d], lookbehind := 0, lookahead := 0 } outer = [some (1, 4)] ∧
+    tempSpans { args := [c, (1, 4), d], lookbehind := 0, lookahead := 0 } inner = [some (1, 1)] ∧
+    lookaroundAction Look.ahead (1 : Nat) 1 = 1 ∧
+    declL [c] [d] (0 : Nat) = 4 := by
+  decide
+
 example : ∃ (env : Env Nat) (pre post : List (InlinedSymbol Nat Nat)),
     env.args.length = numFlatArgs (pre ++ .inlined 0 [] :: post) :=
   ⟨{ args := [(3, 5)], lookbehind := 0, lookahead := 0 }, [.original (.term 0)], [], rfl⟩
